@@ -35,8 +35,6 @@ import (
 	"github.com/refraction-networking/uquic/internal/protocol"
 )
 
-const c08MaxVarint = uint64(1)<<62 - 1
-
 // c08AckDelayFields: the values of the ACK Delay field, ascending, without duplicates.
 func c08AckDelayFields() []uint64 {
 	set := map[uint64]struct{}{}
